@@ -8,7 +8,7 @@ import subprocess
 import sys
 import tempfile
 
-from .. import e1
+from .. import e1, e3
 from ..asm import G, INST, SG, alphabet
 from ..common import VERIF, Report, ncpu, seed
 
@@ -254,7 +254,7 @@ def check(tier):
     its = [(t, b, 3) for t, b in corpus_items(tier)]
     total = e1.Out()
     with mp.get_context("fork").Pool(ncpu()) as pool:
-        for o in pool.imap_unordered(_corpus_one, its, chunksize=16):
+        for o in pool.imap_unordered(e3._Guard(_corpus_one, PROP), its, chunksize=16):
             total.merge(o)
     for k, v in total.stats.items():
         rep.add("corpus_" + k, v)
